@@ -11,7 +11,6 @@ structure StepOk (s : Sys) (op : Op) (s' : Sys) (r : Res) : Prop where
   inv : s'.buf.Inv
   abs : s'.buf.abs = (s.buf.abs.exec op).1
   res : resAgree op r (s.buf.abs.exec op).2 = true
-  segs : s'.buf.segs.arch.length ≤ s.buf.segs.arch.length + opEntries op
 
 theorem next_hyps {b : Buf} (hi : b.Inv) :
     (∀ x ∈ b.mem, x.index < b.abs.next) ∧ (b.mem ≠ [] → b.abs.next = lastIdx b.mem + 1) ∧
@@ -33,9 +32,8 @@ theorem next_hyps {b : Buf} (hi : b.Inv) :
 
 /-- helper: a state built from `s` whose buffer is `b'` (equal to `b''` up to durable/next_id) -/
 theorem stepOk_of {s s' : Sys} {op : Op} {r : Res} {b' : Buf} (hq : Quiet s') (hs : SameBuf b' s'.buf) (hi : b'.Inv)
-    (habs : b'.abs = (s.buf.abs.exec op).1) (hres : resAgree op r (s.buf.abs.exec op).2 = true)
-    (hseg : b'.segs.arch.length ≤ s.buf.segs.arch.length + opEntries op) : StepOk s op s' r :=
-  { quiet := hq, inv := hs.inv hi, abs := by rw [hs.abs]; exact habs, res := hres, segs := by rw [hs.segs]; exact hseg }
+    (habs : b'.abs = (s.buf.abs.exec op).1) (hres : resAgree op r (s.buf.abs.exec op).2 = true) : StepOk s op s' r :=
+  { quiet := hq, inv := hs.inv hi, abs := by rw [hs.abs]; exact habs, res := hres }
 
 theorem execOp_append {s : Sys} {es : List Entry} (hq : Quiet s) (hi : s.buf.Inv)
     (hwf : wfOp s.buf.abs (.append es) = true) (hb : s.buf.segs.arch.length + es.length ≤ maxSegs) :
